@@ -163,7 +163,11 @@ CHECKS['C22'] = _stack('Seeded search over connect requests with valid and inval
                        'must contain the reference anchor (plus transmit window where one applies), the connection must not be dropped before the supervision timeout passed without a valid packet, and only valid connect requests connect.',
                        _ST + 'receive windows, supervision timeout, connect decision')
 CHECKS['C23'] = _stack('Seeded search over the peripheral_latency option sets with application data, central data, MD bursts, CRC errors, lost events and radio disarm success/refusal: the peripheral never skips more than the latency, '
-                       'listens when a configured condition held, and event counter and channel stay in step with the number of elapsed intervals, including events pulled back by pending data.', _ST + 'attended events vs. listen conditions')
+                       'listens when a configured condition held, and event counter and channel stay in step with the number of elapsed intervals, including events pulled back by pending data. A second harness (pdu_sim, configurations '
+                       'with the real nRF52 radio front end) judges what the radio reports about every completed connection event - the listen conditions last_received_not_empty, last_received_had_more_data, '
+                       'last_transmitted_not_empty, unacknowledged_data that plan_next_connection_event() acts on - against the PDUs that were exchanged.', _ST + 'attended events vs. listen conditions')
+CHECKS['C23']['harnesses'] = [_STACK, _PDU]
+CHECKS['C23']['level_note'] = CHECKS['C23']['level_note'] + '; pdu_sim: the Hardware below nrf52.hpp is a stub (harness/nrf_front.hpp), the link layer above it is the op stream of the harness'
 CHECKS['C24'] = _stack('Seeded search over advertising with fixed and run-time changed channel maps, start/stop/count controls, scan requests, connects and disconnects in between: every advertising event uses each enabled channel '
                        'once in ascending order and no disabled one, events are interval + 0..10 ms apart, nothing is sent while stopped or beyond the count.', _ST + 'advertising PDUs on the air')
 CHECKS['C25'] = _stack('Seeded search over scan and connect requests with right/wrong advertiser address, address type, length, initiators inside/outside the white list and filter switches between any two PDUs, for undirected and directed '
